@@ -133,6 +133,34 @@ def gen_cases(rng, tier):
         vals = [rand_value(rng, nm, n) for nm, n in toks]
         yield {'op': 'pack', 'fmt': s, 'kw': kw, 'toks': [list(t) for t in toks], 'vals': [v[0] for v in vals], 'bits': [v[1] for v in vals], 'back': [v[2] for v in vals],
                'zero_bracket': has_zero_bracket(f), 'split': rng.randrange(0, len(toks) + 1), 'arity': rng.choice([0, 0, 0, -1, 1])}
+    # one length-less ("filler") token inside a sequence: variable-length (exp-Golomb) and fixed tokens before it, only fixed-length ones after it;
+    # unpack must size the filler by what is left after the tokens that FOLLOW it
+    for _ in range(120 if tier == 'quick' else 2000):
+        def fixed():
+            while True:
+                t = gen_token(rng, False)
+                if t['t'] == 'fixed': return t
+        pre = [rng.choice([{'t': 'var', 'name': rng.choice(list(GC))}, fixed(), {'t': 'var', 'name': rng.choice(list(GC))}]) for _ in range(rng.randrange(0, 3))]
+        post = [fixed() for _ in range(rng.randrange(0, 3))]
+        f = {'t': 'seq', 'items': pre + [{'t': 'stretch', 'name': rng.choice(['bits', 'bin', 'hex', 'bytes'])}] + post}
+        kw = {}
+        s = show(f, rng, kw)
+        toks = flatten(f)
+        vals = [rand_value(rng, nm, n) for nm, n in toks]
+        yield {'op': 'pack', 'fmt': s, 'kw': kw, 'toks': [list(t) for t in toks], 'vals': [v[0] for v in vals], 'bits': [v[1] for v in vals], 'back': [v[2] for v in vals],
+               'zero_bracket': False, 'split': rng.randrange(0, len(toks) + 1), 'arity': 0}
+    # the same list-of-formats pack twice, and its first item alone afterwards (each item is parsed and cached on its own)
+    for _ in range(40 if tier == 'quick' else 600):
+        items = []
+        for _ in range(rng.randrange(2, 4)):
+            f = gen_fmt(rng, rng.choice([0, 1]), False); kw = {}
+            txt = show(f, rng, kw)
+            items.append([None if kw else txt, flatten(f)])
+        if any(i[0] is None for i in items): continue
+        toks = [t for i in items for t in i[1]]
+        vals = [rand_value(rng, nm, n) for nm, n in toks]
+        n0 = len(items[0][1])
+        yield {'op': 'packlist', 'fmts': [i[0] for i in items], 'vals': [v[0] for v in vals], 'bits': [v[1] for v in vals], 'n0': n0}
     bad = ['(uint:8', 'uint:8)', '2*(uint:8', 'x*(uint8), 2*(uint8)', '*(uint:8)', '2*', 'uint:8,,(', '((uint:8)', ')(', '3*(', 'a*(b*(c))', '2*(uint8))', 'uint:8=1=2', ':8', 'uint::8', '2**uint8', '-1*(uint8)', '1.5*(uint8)']
     for s in bad:
         yield {'op': 'malformed', 'fmt': s}
@@ -164,6 +192,16 @@ def run_impl(c):
             return r
         return attempt(f, 30)
     vals = [v for v in c['vals'] if v is not None]
+    if c['op'] == 'packlist':
+        def g():
+            pv = [pyval(v) for v in vals]
+            a = pack(c['fmts'], *pv).bin
+            b = pack(c['fmts'], *pv).bin
+            k = sum(1 for v in c['vals'][:c['n0']] if v is not None)
+            first = pack(c['fmts'][0], *pv[:k]).bin
+            joined = pack(', '.join(c['fmts']), *pv).bin
+            return [a, b, first, joined]
+        return attempt(g, 20)
     def f():
         out = {}
         p = pack(c['fmt'], *vals, **c['kw'])
@@ -191,7 +229,14 @@ def oracle(c, obs):
             if r[0] == 'err' and r[1] not in ('ValueError', 'ReadError', 'BsError', 'TypeError'):
                 return f"{name}({c['fmt']!r}) raised {r[1]} (only CreationError/ValueError/ReadError/Error are documented); OutOfFuel = did not terminate"
         return None
-    pass
+    if c['op'] == 'packlist':
+        if obs[0] != 'ok': return f"pack({c['fmts']}, {c['vals']}) raised {obs}"
+        a, b, first, joined = obs[1]
+        exp = ''.join(c['bits']); exp0 = ''.join(c['bits'][:c['n0']])
+        if a != exp or b != exp or joined != exp or first != exp0:
+            return (f"pack with the list format {c['fmts']} and values {c['vals']}: first call {a!r}, second call {b!r}, first item alone afterwards {first!r}, "
+                    f"joined string {joined!r}; concatenation of token encodings is {exp!r} (first item: {exp0!r})")
+        return None
     exp_bits = ''.join(c['bits'])
     if obs[0] != 'ok': return f"pack({c['fmt']!r}, {c['vals']}, {c['kw']}) raised {obs}"
     o = obs[1]
